@@ -236,15 +236,17 @@ func (s *LifeScenario) Forgive(k *sim.Kernel, v sim.Violation) bool {
 	if v.Clause != "no-panic" || !strings.Contains(v.Key, "task=ctl") || !strings.Contains(v.Detail, "varlink.(*Service).Listen(") {
 		return false
 	}
-	calls, refused := 0, 0
+	// (the controller's second calls are sequential: a return belongs to the call before it)
+	calls, refused, last := 0, 0, ""
 	for _, e := range k.Log {
 		switch e.Kind {
 		case "bind2.call":
+			last = e.Data
 			if e.Data == "listen" {
 				calls++
 			}
 		case "bind2.return":
-			if strings.HasPrefix(e.Data, "error") {
+			if last == "listen" && strings.HasPrefix(e.Data, "error") {
 				refused++
 			}
 		}
